@@ -51,6 +51,7 @@ type State struct {
 	quantDepth   int               // >0 while evaluating under a quantifier (no path assumptions may be added)
 	atomicAcq    int               // acquisitions of the operation's own mutex on this path
 	published    map[string]bool   // freshly allocated objects that have been stored into shared structures
+	pending      []pendingGo       // spawned goroutines not yet joined
 }
 
 func (st *State) clone() *State {
@@ -82,6 +83,7 @@ func (st *State) clone() *State {
 	n.iters = st.iters
 	n.preHeap = st.preHeap
 	n.facts = st.facts
+	n.pending = append([]pendingGo(nil), st.pending...)
 	n.atomicAcq = st.atomicAcq
 	if st.published != nil {
 		n.published = make(map[string]bool)
